@@ -513,7 +513,9 @@ func loadKnown(prop string) *knownSet {
 func spawnWorker(job workerJob, gomaxprocs int) (*WorkerOut, error) {
 	js, _ := json.Marshal(job)
 	cmd := exec.Command(os.Args[0], "-test.run", "^TestWorker$", "-test.timeout", "0")
-	cmd.Env = append(os.Environ(), "VERIF_JOB="+string(js), fmt.Sprintf("GOMAXPROCS=%d", gomaxprocs))
+	// scratch directories of the worker (scenarios on real file storage) live
+	// under the driver's run directory, which is removed when the check ends
+	cmd.Env = append(os.Environ(), "VERIF_JOB="+string(js), fmt.Sprintf("GOMAXPROCS=%d", gomaxprocs), "TMPDIR="+filepath.Dir(job.Out))
 	var stderr strings.Builder
 	cmd.Stderr = &stderr
 	cmd.Stdout = &stderr
@@ -558,7 +560,7 @@ func TestDriver(t *testing.T) {
 // tree, and about what the former 40 s wall clock budget covered there.
 var quickRuns = map[string]int{
 	"C01": 18000, "C02": 9000, "C03": 14000, "C04": 20000, "C05": 50000,
-	"C06": 9500, "C07": 4300, "C08": 23000, "C09": 24500, "C10": 8600,
+	"C06": 9500, "C07": 7000, "C08": 23000, "C09": 24500, "C10": 8600,
 	"C11": 6400, "C12": 1450, "C13": 8200, "C14": 180000, "C16": 13600,
 	"C17": 63000, "C18": 17200, "C19": 8400, "C20": 7100,
 }
